@@ -13,4 +13,5 @@ func genAll() {
 	genLockCalls()
 	genDerefs()
 	genListeners()
+	genBeaconNode()
 }
